@@ -213,7 +213,8 @@ class Epoch:
                             mm.append(('value', f'{node} of {rc} holds {tree!r}, reference value is {m.ref(d)!r}'))
                     if held_real != bool(held_exp):
                         mm.append(('held', f"{node} of {rc}: held={held_real}, spec says {bool(held_exp)}"))
-                    if bool(t.is_forced) != (d in es['forced']):
+                    # the flag is behaviourally observable only while nothing is held (it decides load vs run)
+                    if not held_real and not held_exp and bool(t.is_forced) != (d in es['forced']):
                         mm.append(('forced', f"{node} of {rc}: is_forced={t.is_forced}, spec says {d in es['forced']}"))
                     if kind != 'mem':
                         vis_exp = exp['disk'][m.keyof[d] - 1] != 0
